@@ -34,6 +34,17 @@ pub fn first_of_len(a: u64, len: u32) -> u64 {
     (0..len).map(|l| a.pow(l)).sum()
 }
 
+/// In about one case out of eight the (still empty) array first sees an out-of-contract input that is
+/// refused with a panic; a refused call must leave nothing behind for the array built afterwards.
+fn refused_init_sometimes(pa: &mut BlockHashPositionArray, a: &[u8], b: &[u8]) {
+    if (fnv64(a) ^ fnv64(b)) % 8 == 0 {
+        let mut bad: Vec<u8> = b.iter().chain(a.iter()).copied().take(40).collect();
+        bad.push(64 + (a.len() as u8 % 100));
+        bad.extend_from_slice(&[1, 2, 3]);
+        let _ = guard(|| pa.init_from(&bad));
+    }
+}
+
 fn pair_fp(a: &[u8], b: &[u8]) -> u64 {
     fnv64(a) ^ fnv64(b).rotate_left(21) ^ ((a.len() as u64) << 56)
 }
@@ -45,6 +56,7 @@ pub fn check_distance(l: &mut Local, a: &[u8], b: &[u8]) {
     let sig = |w: &str| format!("C08|{}|{}|{}", w, hex(a), hex(b));
     let r = guard(|| {
         let mut pa = BlockHashPositionArray::new();
+        refused_init_sometimes(&mut pa, a, b);
         pa.init_from(a);
         let d_ab = pa.edit_distance(b);
         pa.init_from(b);
@@ -237,6 +249,7 @@ pub fn check_common(l: &mut Local, a: &[u8], b: &[u8], tag: &str) {
     let sig = |w: &str| format!("C09|{}|{}|{}", w, hex(a), hex(b));
     let r = guard(|| {
         let mut pa = BlockHashPositionArray::new();
+        refused_init_sometimes(&mut pa, a, b);
         pa.init_from(a);
         let ab = pa.has_common_substring(b);
         pa.init_from(b);
